@@ -23,11 +23,22 @@ CLAIMS = {
                   'writer\'s byte lanes are compared with the little-endian layout; the primitive inventory covers all 11 classes. Classes meeting '
                   'one specification agree with each other up to the first failing call. Library semantics of iostream/read(2) are modelled, not analysed.',
              ref='§4 C17'),
+ 'C18': dict(technique='term-domain evaluation of SipHash::Compute compared with reference SipHash-2-4 terms; compile-time (static_assert) wiring witnesses',
+             text='Dataflow identity, for all inputs, keys and lengths, between the library code (helpers inlined, canonical hash-consed terms) and the '
+                  'SipHash-2-4 construction written from the specification: initial state, block loop bounds, compression step, all 8 tail residues, '
+                  'finalisation, zero-extension of input bytes. The macro wiring (NOP_TABLE_NS, NOP_INTERFACE(32), NOP_METHOD), the name terminator '
+                  'and the four published key constants are tied down by static_asserts that clang evaluates against an independent constexpr reference.',
+             ref='§4 C18'),
  'C19': dict(technique='static inventory of static-storage objects + structural rules (clang AST of patterns and instances)',
              text='Complete for the stated clause set: every object with static storage duration under include/nop is enumerated from the AST '
                   'and must be thread_local or immutable; ThreadLocal storage/first-init/Clear and encoder statelessness are checked on every '
                   'instance. A race between operations on distinct objects needs shared mutable state, of which the inventory shows none.',
              ref='§4 C19'),
+ 'C20': dict(technique='byte-lane term extraction from the instantiated pack expansions + call-graph binding of public functions to helpers',
+             text='Complete for the conversion logic: each helper instance (widths 1,2,4,8, signed/unsigned) must be exactly the little or the big lane map, '
+                  'each public From*/To* of each of the 11 specialisations must reach helpers of its own endianness only, sizes and the union '
+                  'punning structure are checked, so the float/double specialisation cannot forward to the wrong helper or a narrower integral type.',
+             ref='§4 C20'),
 }
 NA = {}
 props = [json.loads(l) for l in open(os.path.join(VERIF, 'properties.jsonl'))]
